@@ -124,6 +124,12 @@ def cases(tier, seed):
                         'entry': int(r.integers(12)),
                         'layout': ['C', 'C', 'F', 'T', 'strided', 'reversed', 'unaligned'][int(r.integers(7))],
                         'single': bool(r.random() < 0.2 and D <= 5 and pat in ('random', 'zeros_high', 'x1_zero', 'last_only'))}})
+    # U(-n, b, x) is a polynomial of degree n: base points where one of its derivatives vanishes EXACTLY (the linear (n-1)-th one at
+    # x = b + n - 1, representable for half-integer b) while later ones do not - all elements and directions on that point, and a mix
+    for n_ in (3, 4, 5):
+        for b_ in (0.5, 1.5, 2.5):
+            for D in ((4, 5, 6) if tier == 'quick' else (4, 5, 6, 7)):
+                out.append({'kind': 'hyperu_poly', 'seed': case_seed('C01', seed, 'hyperu_poly', n_, b_, D), 'params': {'n': n_, 'b': b_, 'D': D}})
     return out + extreme_cases(tier, seed)
 
 
@@ -249,6 +255,8 @@ def run_case(ctx, case):
     rng = gen.rng_of(case)
     if case['kind'] == 'extreme':
         return _extreme(ctx, p, rng)
+    if case['kind'] == 'hyperu_poly':
+        return _hyperu_poly(ctx, p, rng)
     name, D, P, shape, pat = p['fn'], p['D'], p['P'], tuple(p['shape']), p['pattern']
     if name in PIECEWISE:
         return _piecewise(ctx, p, rng)
@@ -346,6 +354,30 @@ def run_case(ctx, case):
            sample={'fn': name, 'entry': ename, 'D': D, 'P': P, 'shape': shape, 'complex': cplx, 'pattern': pat,
                    'x[:,0,first]': [str(v) for v in data[(slice(None), 0) + (tuple(0 for _ in shape))][:3]],
                    'max_err_over_majorant': worst} if rng.random() < 0.02 else None)
+
+
+def _hyperu_poly(ctx, p, rng):
+    n, b, D = p['n'], p['b'], p['D']
+    mf = lambda z: mp.hyperu(-n, b, z)
+    root = b + n - 1.0                                  # the (n-1)-th derivative of the degree-n polynomial vanishes here
+    for label, base in (('all-on-the-root', np.array([root, root])), ('one-on-the-root', np.array([root, root + 0.75]))):
+        for P in (1, 2):
+            data = np.zeros((D, P, 2))
+            data[0] = base
+            data[1:] = np.round(rng.normal(size=(D - 1, P, 2)), 3)
+            for ename, f in (('glob', lambda x: algopy.special.hyperu(-n, b, x)), ('meth', lambda x: UTPM.hyperu(-n, b, x)), ('float-a', lambda x: UTPM.hyperu(float(-n), b, x))):
+                try:
+                    y = f(UTPM(data.copy()))
+                except Exception as e:
+                    ctx.violation('hyperu:polynomial-case:raises', {'a': -n, 'b': b, 'D': D, 'entry': ename, 'error': repr(e)[:200]}); return
+                for pp in range(P):
+                    for i in range(2):
+                        ref, maj = O.series(mf, list(data[:, pp, i]))
+                        e = O.err_over_maj(list(y.data[:, pp, i]), ref, maj)
+                        if not (e <= 1e-7):
+                            ctx.violation('hyperu:polynomial-case:coeff:%s' % label, {'a': -n, 'b': b, 'D': D, 'P': P, 'entry': ename, 'x0': float(data[0, pp, i]),
+                                          'got': [float(v) for v in y.data[:, pp, i]], 'want': [float(v) for v in ref], 'err_over_majorant': e}); return
+            ctx.ok('hyperu', ('hyperu_poly', n, b, D, P, label))
 
 
 def _piecewise(ctx, p, rng):
